@@ -384,6 +384,25 @@ class SeqOf(Spec):
         return q
 
 
+class Handle(Spec):
+    """Objects with identity that are stored in collections: the value is an integer id and the proxy a
+    stub object made from it (futures, tasks)."""
+
+    scalar_sort = INT
+
+    def __init__(self, factory):
+        self.factory = factory  # id term -> stub object with attribute `.id` (a T of sort Int)
+
+    def fresh(self, name):
+        return self.factory(cur().fresh(name, INT))
+
+    def wrap(self, t):
+        return self.factory(t)
+
+    def term(self, v):
+        return v.id
+
+
 class SameRef(Spec):
     """A field that holds one and the same heap object in every stored value (e.g. `graph`).
 
@@ -410,6 +429,31 @@ class SameRef(Spec):
         if state[0] is not value:
             raise sym.Unsupported("two different objects stored in a SameRef field")
         return state
+
+    def terms_of(self, v):
+        return []
+
+
+class Ignored(Spec):
+    """A field whose content is not tracked (stored values are forgotten)."""
+
+    class Unknown:
+        def __getattr__(self, name):
+            if name.startswith("__"):
+                raise AttributeError(name)
+            raise sym.Unsupported("use of an untracked field value")
+
+    def fresh(self, name):
+        return Ignored.Unknown()
+
+    def arr_fresh(self, name, ksort):
+        return None
+
+    def arr_select(self, state, kt):
+        return Ignored.Unknown()
+
+    def arr_store(self, state, kt, value):
+        return None
 
     def terms_of(self, v):
         return []
